@@ -19,7 +19,7 @@ func init() {
 	register("C05", func(e *Env) {
 		renderPrelude()
 		e.perShard = 50
-		e.rep.Rule = "a failing instrumented helper (fail1: logs its invocation, returns sentinel error E1) planted at every hole of 36 expression skeletons x 22 statement contexts (operands of every operator, conditions, branch bodies, loop iterable/body, array/hash elements, index, arguments of Go helpers / user functions / methods, helper blocks, contentFor/contentOf blocks, partial data and partial bodies), plus depth-2 compositions; oracle: whenever the log shows the helper was invoked, Render must return an error with errors.Is(err, E1) and empty output; non-trivial = the helper was invoked; distinct by template"
+		e.rep.Rule = "a failing instrumented helper (fail1: logs its invocation, returns sentinel error E1) planted at every hole of 36 expression skeletons x 22 statement contexts (operands of every operator, conditions, branch bodies, loop iterable/body, array/hash elements, index, arguments of Go helpers / user functions / methods, helper blocks, contentFor/contentOf blocks, partial data and partial bodies), plus depth-2 compositions; the same holes filled with a partial whose body calls the failing helper and with partials that fail on an unknown identifier after logging that they ran (the helper's error wraps an unknown-identifier error: not the tolerated case); oracle: whenever the log shows the helper was invoked, Render must return an error with errors.Is(err, E1) and empty output; non-trivial = the helper was invoked; distinct by template"
 		pre := "<% let g = fn(a, b) { return a } %>"
 		check := func(tag, tmpl string) {
 			c := RCase{Tmpl: pre + tmpl, Binds: stdBinds(), Parts: stdParts}
@@ -50,6 +50,42 @@ func init() {
 			for _, ex := range c05exprs {
 				check("d1", strings.Replace(cx, "E", strings.Replace(ex, "@", "fail1()", 1), 1))
 			}
+		}
+		// other failing sources in the same holes: a partial whose body calls the failing helper, and
+		// partials whose body fails on an unknown identifier (after logging that they ran): the
+		// error of the partial helper wraps an unknown-identifier error, which is NOT the tolerated case
+		markT := show(vInt(8).Go(nil))
+		check2 := func(tag, tmpl string) {
+			c := RCase{Tmpl: pre + tmpl, Binds: stdBinds(), Parts: stdParts}
+			o := e.addRenderCase(tag, c)
+			ran := false
+			for _, l := range o.Log {
+				if l.Id == 101 && len(l.Args) > 0 && l.Args[0] == markT {
+					ran = true
+				}
+			}
+			if !ran {
+				return
+			}
+			e.Distinct("inv2/" + tmpl)
+			rp := map[string]interface{}{"case": c, "observed": o}
+			switch {
+			case o.Class == "OK":
+				e.Violate("c05-swallowed", fmt.Sprintf("a partial that fails on an unknown identifier was rendered but Render succeeded with %q for %q", o.Out, tmpl), rp)
+			case o.Class == "ERR" && o.Out != "":
+				e.Violate("c05-partial-output", fmt.Sprintf("Render returned an error and output %q for %q", o.Out, tmpl), rp)
+			case o.Class == "PANIC":
+				e.Violate("eval-panic@"+siteOf(o.Msg), fmt.Sprintf("Render panicked on %q: %s", tmpl, o.Msg), rp)
+			}
+		}
+		for _, cx := range c05ctxs {
+			for _, ex := range c05exprs {
+				check("d1p", strings.Replace(cx, "E", strings.Replace(ex, "@", `partial("failing")`, 1), 1))
+				check2("d1u", strings.Replace(cx, "E", strings.Replace(ex, "@", `partial("badc")`, 1), 1))
+			}
+			check2("d1b", strings.Replace(cx, "E", `partial("badblk")`, 1))
+			check2("d1b", strings.Replace(cx, "E", `!partial("badblk")`, 1))
+			check2("d1b", strings.Replace(cx, "E", `partial("badblk") == nil`, 1))
 		}
 		check("partial", `<%= partial("failing") %>`)
 		check("partial", `a<%= partial("nested") %><%= partial("failing", {layout: "lay"}) %>`)
